@@ -50,7 +50,7 @@ class Arr(list):
 KINDS = ['assign', 'print', 'print2', 'expr', 'printexpr', 'none', 'multi', 'compound', 'def', 'semicolon', 'expr_wild', 'expr_arr', 'expr_words', 'printexpr_semi', 'none_semi']
 # the richer statement grammar of the C01 program generator (C01, C18, C19, C20)
 MORE_KINDS = ['await_expr', 'unawaited_coro', 'esc_literal', 'annotated_def', 'augassign', 'for', 'while', 'with', 'try', 'decodef', 'class', 'literal_comment', 'triple', 'triple_unprefixed', 'triple_blank', 'triple_unprefixed_blank', 'bracket_blank', 'triple_trailing_ws', 'triple_late_unprefixed', 'triple_dots_body', 'sep_literal',
-              'import', 'comment', 'async_await', 'async_for', 'async_with']
+              'import', 'comment', 'async_await', 'async_for', 'async_with', 'match_stmt', 'paren_with', 'except_star', 'generic_def']
 ALL_KINDS = KINDS + MORE_KINDS
 TERMINATED_KINDS = ('compound', 'for', 'while', 'with', 'def', 'print', 'assign', 'multi', 'expr', 'try')
 TAGWORDS = ['Returns:', 'Args:', 'Note:', 'Raises::', 'Example:', 'Yields:', 'Todo:', 'Returns: ']
@@ -142,6 +142,20 @@ class Stmt:
             self.lines = ['try:', "    print('t%d', t(%d))" % (k, k), '    1 / 0', 'except ZeroDivisionError:', "    print('caught%d')" % k,
                           'finally:', "    print('fin%d')" % k]
             self.out = 't%d %d\ncaught%d\nfin%d\n' % (k, k, k, k)
+        elif kind == 'match_stmt':
+            # grammar younger than Python 3.8 (structural pattern matching, parenthesised context managers, except*, type parameters):
+            # doctest source is parsed with the grammar of the running interpreter
+            self.lines = ['match t(%d) %% 2:' % k, '    case 0:', "        print('even%d')" % k, '    case _:', "        print('odd%d')" % k]
+            self.out = ('even%d\n' if k % 2 == 0 else 'odd%d\n') % k
+        elif kind == 'paren_with':
+            self.lines = ['with (ctx(%d) as cm%d,' % (k, k), '      ctx(0) as cz%d):' % k, "    print('pw%d', cm%d, cz%d)" % (k, k, k)]
+            self.out = 'pw%d %d 0\n' % (k, k)
+        elif kind == 'except_star':
+            self.lines = ['try:', "    raise ExceptionGroup('g', [ValueError(t(%d))])" % k, 'except* ValueError as eg%d:' % k, "    print('star%d', len(eg%d.exceptions))" % (k, k)]
+            self.out = 'star%d 1\n' % k
+        elif kind == 'generic_def':
+            self.lines = ['def first%d[T](xs: list[T]) -> T:' % k, '    return xs[0]', 'gd%d = first%d([t(%d)])' % (k, k, k)]
+            self.starts = [0, 2]
         elif kind == 'decodef':
             self.lines = ['@deco', 'def g%d(x):' % k, '    y = x + 1', '    return y', 'r%d = g%d(t(%d))' % (k, k, k)]
             self.starts = [0, 4]
